@@ -30,7 +30,9 @@ RULE = ("(script) every legal command sequence up to length L over {assert x3, a
 
 # ---------------------------------------------------------------- script side
 
-SCRIPT_LETTERS = ["A", "B", "C3", "S0", "Sg", "Sg2", "Sh", "P0", "P1", "P2", "Q0", "Q1", "Q2", "R", "RR", "K", "Mi", "Ma", "MM", "Mb"]
+SCRIPT_LETTERS = ["A", "B", "C3", "S0", "Sg", "Sg2", "Sh", "P0", "P1", "P2", "Q0", "Q1", "Q2", "R", "K", "Mi", "Ma", "MM", "Mb"]
+# ("RR" = (reset) is understood by the machinery below but not generated: the property quantifies over assert / push /
+#  pop / reset-assertions / check commands)
 
 
 class ScriptWorld(object):
